@@ -8,6 +8,7 @@ from __future__ import annotations
 import collections
 import copy
 import logging
+import re
 import sys
 from typing import TYPE_CHECKING
 
@@ -32,11 +33,14 @@ def value_to_string(value: Union[str, bytes]) -> str:
     if isinstance(value, bytes):
         # we prepend a double quote to the bytes so repr() always escapes using single quote and strip it afterwards
         value = repr(b'"' + value)[3:-1]
-    if isinstance(value, str):
         # we escape double quotes, because we return it as a double quoted string value
         value = value.replace('"', '\\"')
         # we don't have to escape single quotes, as we return it as a double quoted value
         value = value.replace("\\'", "'")
+    elif isinstance(value, str):
+        # text as it is written in a profile: escape sequences stay as they are, a double quote that is not escaped
+        # yet (or a backslash at the very end) would end the string value early
+        value = re.sub(r'\\.|\\$|"', lambda m: m.group(0) if len(m.group(0)) == 2 else "\\" + m.group(0), value, flags=re.S)
     return f'"{value}"'
 
 
